@@ -57,3 +57,10 @@ CHECKS["C17"] = dict(
     design_ref="DESIGN.md 3 C17",
     note="Bounded (n<=2 quick, n<=3 thorough); redirect propagation modelled as one step after the closure; several redirects / chains outside.",
 )
+CHECKS["C02"] = dict(
+    engine="E1 CrossHair; E2 z3 regex",
+    technique="CrossHair symbolic execution of the real heading/rule/list/text handlers from an arbitrary valid parser state (inductive one-step lemmas); z3 regular-language lemmas for the line classification",
+    text="From EVERY valid parser state of the abstraction (any set of open section levels, any chain of open */# list items with symbolic markers up to the bound) one heading, heading-end, rule, list or filler step leaves exactly the state the nesting model prescribes: confirmed over all paths. Since the lemmas are closed under the abstraction they compose to documents of any length (paper induction in DESIGN.md). Tokenizer patterns classify the three line shapes as assumed (unbounded length).",
+    design_ref="DESIGN.md 3 C02",
+    note="Definition lists (; :), fillers with markup and headings inside HTML/tables are outside; assumes the begline representation invariant; replays go through Wtp.parse against an independent reference builder.",
+)
